@@ -4,7 +4,10 @@
      DecodeEnvelope returned (JSON is not modelled), the blob the fake storage
      holds, and the real digests of that blob (the model's [digest] is the table
      of those observed values), and the projected results.
-   CDownload: one POST /lfs/download through the real handleHTTPDownload. *)
+   CDownload: one POST /lfs/download through the real handleHTTPDownload; [attempts]
+     are the outcomes the fake storage was programmed to give to successive
+     GetObject calls, [body] the bytes the HTTP client received, [calls] the number
+     of GetObject calls actually made. *)
 From Coq Require Import String.
 From KS Require Import lib.Base lib.Strings model.Envelope model.Checksum.
 Open Scope Z_scope.
@@ -31,8 +34,9 @@ Inductive case :=
            (d_sha256 d_md5 d_crc32 : bytes)         (* real digests of the stored blob, hex *)
            (max_size : Z) (validate has_s3 : bool)
            (res_resolve res_unwrap : robs)
-| CDownload (cfg : dlcfg) (q : dlreq) (obj : s3obj) (sha_buffered : bytes) (presign_ok : bool)
-            (status : Z) (code : bytes) (body : bytes) (echo_sha : bytes) (echo_size : Z).
+| CDownload (cfg : dlcfg) (q : dlreq) (attempts : list s3obj) (sha_buffered : bytes) (presign_ok : bool)
+            (status : Z) (code : bytes) (body : bytes) (echo_sha : bytes) (echo_size : Z)
+            (calls : Z).   (* GetObject calls the fake storage saw *)
 
 Definition dl_eqb (r : dlresp) (status : Z) (code body echo_sha : bytes) (echo_size : Z) : bool :=
   match r with
@@ -51,6 +55,7 @@ Definition check_case (k : case) : bool :=
       let fetch := fun _ : bytes => stored in
       robs_eqb (resolve digest um fetch max_size validate has_s3 value) rr &&
       robs_eqb (unwrap digest um fetch validate value) ru
-  | CDownload cfg q obj shab presign_ok status code body es ez =>
-      dl_eqb (download (fun _ => shab) presign_ok (fun _ => obj) cfg q) status code body es ez
+  | CDownload cfg q attempts shab presign_ok status code body es ez calls =>
+      dl_eqb (download (fun _ => shab) presign_ok (fun _ => attempts) cfg q) status code body es ez &&
+      (get_calls (fun _ => shab) presign_ok (fun _ => attempts) cfg q =? calls)
   end.
